@@ -468,7 +468,7 @@ def codespeed_same_name_part(chk):
         for i in range(n):
             del srv.got[:]
             data_file = os.path.join(d, "v%d.data" % i)
-            vals = rng.sample([1, 2, 3, 5, 8], rng.randint(2, 4))
+            vals = rng.sample([0, 1, 2, 3, 5, 8], rng.randint(2, 4))      # 0: a falsy identifying value
             final = i % 2 == 1
             raw = {"executors": {"E": {"path": "/x", "executable": "exe"}},
                    "benchmark_suites": {"S": {"gauge_adapter": "RebenchLog", "command": "%(benchmark)s-%(variable)s %(invocation)s",
@@ -484,8 +484,14 @@ def codespeed_same_name_part(chk):
                     return 1, "boom"
                 return 0, "B: iterations=1 runtime: %dus\n" % (1000 * v + 100 * inv)
             argv = ["--commit-id=abc", "--environment=env", "--project=p"] + (["-I"] if final else [])
+            earlier = i % 4 >= 2       # everything was recorded by an earlier session (no reporting there)
+            if earlier:
+                session.run_session(raw, script, data_file, argv=["-R"])
             ses = session.run_session(raw, script, data_file, argv=argv)
-            case = dict(config=raw, final_mode=final, failing_values=sorted(failing))
+            case = dict(config=raw, final_mode=final, failing_values=sorted(failing), recorded_by_an_earlier_session=earlier)
+            if earlier and not isinstance(ses.result, str) and [st for st in ses.starts if int(st[0].split("-")[1]) not in failing]:
+                chk.violation("C18 runs recorded by an earlier session are not executed again (their samples are those of the data file)", case, [],
+                              ses.starts[:6])
             if isinstance(ses.result, str):
                 chk.violation("C18 session with Codespeed reporting ends without an exception", case, "no exception", ses.result + ": " + repr(ses.exc))
                 continue
@@ -496,6 +502,8 @@ def codespeed_same_name_part(chk):
             want = sorted(round(sum(per[v]) / len(per[v]), 6) if v in per and v not in failing else -1 for v in vals)
             results = [r for req in srv.got for r in req]
             got = sorted(round(r["result_value"], 6) for r in results)
+            if earlier and not final:
+                want = sorted(-1 for v in vals if v in failing)     # incremental mode reports what this session executed: the failing runs
             if got != want:
                 chk.violation("C18 Codespeed receives one result per run, also for runs that differ in the variable value only", case, want, got)
             chk.case(("codespeed-same-name", i))
